@@ -1156,6 +1156,12 @@ func callNames(stmts []ast.Stmt) []string {
 	return out
 }
 
+func nodeStr(n ast.Node) string {
+	var b bytes.Buffer
+	printer.Fprint(&b, fset, n)
+	return b.String()
+}
+
 func genExits(repo, out string) {
 	g := newGen("Exits")
 	fmt.Fprintf(&g.buf, "structure Exit where\n  fn : String\n  ord : Nat\n  calls : List String\n  deriving Repr, DecidableEq\n\n")
@@ -1411,6 +1417,44 @@ func genExits(repo, out string) {
 			return true
 		})
 	}
+	// region/new.go Dial: the order of "is the client closed?", the dial itself and the hand-over of
+	// the connection inside dialOnce.Do
+	var dialSteps []string
+	if fd := findMethod(frn, "client", "Dial"); fd != nil {
+		ast.Inspect(fd.Body, func(n ast.Node) bool {
+			fl, ok := n.(*ast.FuncLit)
+			if !ok {
+				return true
+			}
+			for _, st := range fl.Body.List {
+				switch x := st.(type) {
+				case *ast.SelectStmt:
+					for _, cc := range x.Body.List {
+						if c := cc.(*ast.CommClause); c.Comm != nil && strings.Contains(nodeStr(c.Comm), "<-c.done") {
+							dialSteps = append(dialSteps, "closed?")
+						}
+					}
+				case *ast.AssignStmt:
+					if len(x.Rhs) == 1 && strings.HasPrefix(nodeStr(x.Rhs[0]), "c.dialer(") {
+						dialSteps = append(dialSteps, "dial")
+					}
+					if len(x.Lhs) == 1 && nodeStr(x.Lhs[0]) == "c.conn" {
+						dialSteps = append(dialSteps, "store")
+					}
+				case *ast.ExprStmt:
+					if strings.HasPrefix(nodeStr(x.X), "c.sendHello(") {
+						dialSteps = append(dialSteps, "hello")
+					}
+				case *ast.IfStmt:
+					if strings.Contains(nodeStr(x), "c.sendHello()") {
+						dialSteps = append(dialSteps, "hello")
+					}
+				}
+			}
+			return false
+		})
+	}
+	g.def("dialSteps", "List String", leanList(dialSteps))
 	g.def("newClientReadTimeoutParam", "String × String", fmt.Sprintf("(%s, %s)", leanStr(rtParam), leanStr(rtField)))
 	// region/client.go: where the read deadline is armed, and with what
 	var armExprs []string
@@ -1476,6 +1520,41 @@ func genExits(repo, out string) {
 			return true
 		})
 	}
+	// rpc.go SendBatch: the contexts of its two other waits — handing a group of calls to a region
+	// client (QueueBatch, which blocks while the connection's send queue is busy) and the back-off
+	// sleep between rounds — and where those contexts come from
+	var sbWaits []string
+	if fd := findMethod(f, "client", "SendBatch"); fd != nil {
+		derived := map[string]string{}
+		ast.Inspect(fd.Body, func(n ast.Node) bool {
+			if as, ok := n.(*ast.AssignStmt); ok && len(as.Lhs) == 2 && len(as.Rhs) == 1 {
+				if c, ok := as.Rhs[0].(*ast.CallExpr); ok && exprStr(c.Fun) == "contextOfCalls" && len(c.Args) == 2 {
+					derived[exprStr(as.Lhs[0])] = "contextOfCalls(" + exprStr(c.Args[0]) + ", " + exprStr(c.Args[1]) + ")"
+				}
+			}
+			return true
+		})
+		ast.Inspect(fd.Body, func(n ast.Node) bool {
+			if c, ok := n.(*ast.CallExpr); ok && len(c.Args) >= 1 {
+				fn := exprStr(c.Fun)
+				if strings.HasSuffix(fn, ".QueueBatch") || fn == "sleepAndIncreaseBackoff" {
+					a := exprStr(c.Args[0])
+					if d, ok := derived[a]; ok {
+						a = d
+					}
+					name := fn
+					if i := strings.LastIndex(fn, "."); i >= 0 {
+						name = fn[i+1:]
+					}
+					sbWaits = append(sbWaits, name+":"+a)
+				}
+			}
+			return true
+		})
+	} else {
+		g.fail("SendBatch missing")
+	}
+	g.def("sendBatchWaitContexts", "List String", leanList(sbWaits))
 	g.def("findClientsLocateCtxPerCall", "Bool", fmt.Sprint(perCall))
 	g.def("findClientsLocateCtx", "List String", leanList(locCtx))
 	g.def("findClientsAfterFunc", "List String", leanList(afterFuncs))
